@@ -224,7 +224,14 @@ def check(case, stats):
         fallback = sum(
             len(o.cards) for o in ops if op_kind(o) == 'deal_board'
         ) - total_board * b * r if total_board == 0 else 0
+        later_hole = any(st_.hole_dealing_statuses for st_ in s.streets[1:])
         for k, bd in enumerate(boards):
+            if later_hole and len(bd) != total_board:
+                # a later street deals hole cards: when the deck cannot cover
+                # it the cards come as shared board cards instead (C10), so
+                # a board may hold more than the street list prescribes
+                stats.count('not_judged:fall_back_may_add_board_cards')
+                break
             if total_board == 0 and fallback > 0:
                 # boards exist only because of the fall-back: not a board
                 # game in the sense of this property
